@@ -75,9 +75,12 @@ def _opt(strategy):
     return st.one_of(st.none(), strategy)
 
 
+STRATA = {'selectors': 1, 'cli-retrieval': 2, 'sections': 3, 'cli': 2, 'retrieval': 2}
+
+
 @st.composite
-def _case(draw):
-    part = draw(S.pick(['selectors', 'cli-retrieval', 'sections', 'cli', 'retrieval', 'cli-retrieval', 'sections', 'cli', 'retrieval', 'sections']))
+def _case(draw, part=None):
+    part = part or draw(S.pick(['selectors', 'cli-retrieval', 'sections', 'cli', 'retrieval', 'cli-retrieval', 'sections', 'cli', 'retrieval', 'sections']))
     c = {'part': part}
     if part == 'selectors':
         c['case_variant'] = draw(S.ints(0, 3))
@@ -172,8 +175,8 @@ def _case(draw):
     return c
 
 
-def strategy(tier):
-    return _case()
+def strategy(tier, part=None):
+    return _case(part)
 
 
 # ---------------------------------------------------------------------------------------------------
@@ -1095,9 +1098,19 @@ def check_retrieval(out, c, tmp):
         o2.compile_params()
         a = (list(o1.fit_names), [type(p).__name__ for p in o1.fitting_priors], [p.params() for p in o1.fitting_priors], list(o1.derived_names))
         b = (list(o2.fit_names), [type(p).__name__ for p in o2.fitting_priors], [p.params() for p in o2.fitting_priors], list(o2.derived_names))
-        if a != b or not close(np.array(o1.fit_boundaries, dtype=float), np.array(o2.fit_boundaries, dtype=float), rtol=1e-12) \
+        def view(o, attr):
+            # a log-space prior over a parameter whose (unused) linear bounds are not positive has no log10 boundaries: the
+            # view raises for the file-built and the API-built optimizer alike (positive bounds are C07's stated domain)
+            try:
+                return np.array(getattr(o, attr), dtype=float)
+            except ValueError:
+                out.cls('fitting:log-prior-over-nonpositive-bounds')
+                return np.array([np.nan])
+        fb1, fb2 = view(o1, 'fit_boundaries'), view(o2, 'fit_boundaries')
+        same_fb = (np.isnan(fb1).all() and np.isnan(fb2).all()) if (np.isnan(fb1).any() or np.isnan(fb2).any()) else close(fb1, fb2, rtol=1e-12)
+        if a != b or not same_fb \
                 or not close(np.array(o1.fit_values, dtype=float), np.array(o2.fit_values, dtype=float), rtol=1e-12):
-            out.fail('fitting-section@differs-from-api', 'file: %s %s; API: %s %s' % (a[:2], list(o1.fit_boundaries), b[:2], list(o2.fit_boundaries)))
+            out.fail('fitting-section@differs-from-api', 'file: %s %s; API: %s %s' % (a[:2], fb1.tolist(), b[:2], fb2.tolist()))
         # what the file says, directly: fit flags and bounds
         for fp in fitting:
             nm = fp['name']
